@@ -353,6 +353,9 @@ def _main(mod, pid, a, seed, t0):
                 violations.append((case, key, detail, "coverage-guided (atheris over the Hypothesis strategy)"))
 
     # ---- coverage expectations ----------------------------------------------------------------------------
+    if not violations and ctx.labels.get("skip:undeclarable-spec", 0) > 0.1 * max(1, ctx.evaluations):
+        raise HarnessError(f"{ctx.labels['skip:undeclarable-spec']} of {ctx.evaluations} generated specs were "
+                           f"refused by the DSL: the spec generator no longer matches the declaration rules")
     if hasattr(mod, "require") and not violations and not timed_out:
         mod.require(ctx, a.tier)
 
